@@ -1,7 +1,7 @@
 #!/usr/bin/env python3
 """Copy a confirmed seeded change into /verif/seeded/<P>-s<n>/ (patch.diff, demo/, meta.json).
 
-usage: keep_seed.py <P> <n> [--source /tmp/seed-<P>/SEED<n>]
+usage: keep_seed.py <P> <n> [--source /tmp/seed-<P>/SEED<n>] [--name s3] [--conf <confirm json>]
 meta.json records: which property it breaks, what it needs in order to manifest, what was run to
 confirm it (tools/confirm_seed.py output) and which checks detected it (evaluation output)."""
 import json
@@ -13,8 +13,9 @@ p, n = sys.argv[1], sys.argv[2]
 src = f"/tmp/seed-{p}/SEED{n}"
 if "--source" in sys.argv:
     src = sys.argv[sys.argv.index("--source") + 1]
-dst = f"/verif/seeded/{p}-s{n}"
-conf_path = f"/verif/work/confirm/{p}-{n}.json"
+name = sys.argv[sys.argv.index("--name") + 1] if "--name" in sys.argv else f"s{n}"
+dst = f"/verif/seeded/{p}-{name}"
+conf_path = sys.argv[sys.argv.index("--conf") + 1] if "--conf" in sys.argv else f"/verif/work/confirm/{p}-{n}.json"
 conf = json.load(open(conf_path)) if os.path.exists(conf_path) else None
 if not conf or not conf.get("confirmed"):
     print(f"{p}-{n}: NOT confirmed, not kept")
@@ -25,7 +26,7 @@ if os.path.isdir(f"{dst}/demo"):
     shutil.rmtree(f"{dst}/demo")
 shutil.copytree(f"{src}/demo", f"{dst}/demo", ignore=shutil.ignore_patterns("target", "*.lock", "generated", "Cargo.lock"))
 orig = json.load(open(f"{src}/meta.json"))
-ev_path = f"/verif/work/evalseeds/{p}-{n}.json"
+ev_path = f"/verif/work/evalseeds/{p}-{n}.json" if "--name" not in sys.argv else "/nonexistent"
 ev = None
 if os.path.exists(ev_path):
     txt = open(ev_path).read()
@@ -56,10 +57,10 @@ if ev:
 off = f"{src}/result.json"
 if os.path.exists(off):
     r = json.load(open(off))
-    meta["detection"] = [d for d in meta["detection"] if d.get("procedure", "").startswith("scratch")]
+    meta["detection"] = [d for d in meta["detection"] if d.get("procedure", "").startswith("scratch") or (d.get("at") and d.get("at") != r.get("at"))]
     for prop, res in r["results"].items():
         meta["detection"].append({"procedure": "official: git -C /repo apply patch.diff; ./check %s --tier %s; git -C /repo apply -R" % (prop, r["tier"]),
                                   "at": r.get("at"), "property": prop, "exit": res["exit"], "detected": res["detected"], "wall_s": res["wall_s"],
                                   "lines": [l[:300] for l in res["lines"][:4]]})
 json.dump(meta, open(f"{dst}/meta.json", "w"), indent=1)
-print(f"{p}-s{n}: kept; detected={[d.get('detected') for d in meta['detection']]}")
+print(f"{p}-{name}: kept; detected={[d.get('detected') for d in meta['detection']]}")
